@@ -242,9 +242,23 @@ def run_history_range(binary, cfg, seed, lo, hi, extra_args, timeout=600, max_ev
         if summ is not None:
             res["summaries"].append(summ)
         if w["timed_out"]:
-            res["inconclusive"].append({"cfg": cfg, "why": "watchdog fired (history range %d..%d)" % (cur, hi)})
+            # no progress within the (generous) watchdog: re-run the history that was in progress once, on its own; a second
+            # time-out in the same call is reported as a hang of that call (a violation key like any other), a single one is inconclusive
             rg = w["ring"] or {}
-            cur = int(rg.get("hist", cur)) + 1
+            h = int(rg.get("hist", cur))
+            w2 = run_worker(binary, ["--seed", str(seed), "--from", str(h), "--to", str(h + 1)] + extra_args, cfg, max(60, timeout // 4))
+            for r in w2["records"]:
+                if r.get("t") == "viol":
+                    r["cfg"] = cfg
+                    r["seed"] = seed
+                    res["viols"].append(r)
+            if w2["timed_out"]:
+                rg2 = w2["ring"] or rg
+                res["crashes"].append({"cfg": cfg, "seed": seed, "what": "hang: no progress within the watchdog, twice", "hist": h, "op": rg2.get("op"),
+                                       "sig": rg2.get("sig", "?"), "desc": rg2.get("desc", ""), "stderr": ""})
+            else:
+                res["inconclusive"].append({"cfg": cfg, "why": "watchdog fired once in history %d (not reproduced)" % h})
+            cur = h + 1
             events += 1
             continue
         if w["rc"] == 0 and summ is not None:
